@@ -24,13 +24,16 @@ structure VW where
   discr : Option String
   fields : String
 
-/-- Token-level twin of `constsFrom`: `(<last>)+<inc>`; only field-less variants are emitted. -/
-def constToks : String → Nat → List VW → List (String × String × String)
+/-- Token-level twin of `constsFromW`: `{const __LAST: <ty> = <last>; __LAST.wrapping_add(<inc>usize as <ty>)}`;
+only field-less variants are emitted. -/
+def constToks (ty : String) : String → Nat → List VW → List (String × String × String)
   | _, _, [] => []
   | last, inc, v :: vs =>
     let (last', inc') := match v.discr with | some d => (d, 0) | none => (last, inc)
-    let rest := constToks last' (inc' + 1) vs
-    if v.fieldless then (v.name, s!"({last'})+{inc'}", v.fields) :: rest else rest
+    let rest := constToks ty last' (inc' + 1) vs
+    if v.fieldless then
+      (v.name, "{" ++ s!"const__LAST:{ty}={last'};__LAST.wrapping_add({inc'}usizeas{ty})" ++ "}", v.fields) :: rest
+    else rest
 
 def cmdTf (line : String) : String :=
   match Sexp.parse line with
@@ -49,7 +52,7 @@ def cmdTf (line : String) : String :=
       match reprOf rs with
       | .error _ => pure "err"
       | .ok ty =>
-        let cs := constToks "0" 0 vs
+        let cs := constToks (tyName ty) "0" 0 vs
         let consts := ";".intercalate (cs.map fun (x : String × String × String) => s!"{x.1}={x.2.1}")
         let arms := ";".intercalate (cs.map fun (x : String × String × String) => s!"{x.1}{x.2.2}")
         pure s!"ok repr={tyName ty} consts={consts} arms={arms}").getD "bad-op"
